@@ -11,13 +11,14 @@ EXTENDS Solver, TLC
 CONSTANTS MaxRank, MaxIter, Legacy
 Ranks == 0..MaxRank
 
+Members == {[vars |-> <<lo[1]>>, fit |-> <<a, b>>, refit |-> <<a, b>>, viol |-> w] : a \in 0..1, b \in 0..1, w \in 0..1}
+
 Init == SInit
 Next ==
     \/ \E l \in Ranks, h \in Ranks : Start(run + 1, "so", <<l>>, <<h>>, 0)
     \/ \E b \in Ranks : Len(cur) <= MaxIter /\ (IF Legacy THEN LegacyIter(b) ELSE Iter(b))
     \/ \E r \in Ranks, v \in Ranks : DoneSO(r, r, <<v>>)
     \/ \E l \in Ranks, h \in Ranks : Start(run + 1, "mo", <<l>>, <<h>>, 0)
-    \/ \E f1, f2 \in [vars : {<<v>> : v \in Ranks}, fit : {<<a, b>> : a, b \in 0..1}, viol : 0..1] :
-          DoneMO(<<[f1 EXCEPT !.refit = f1.fit] @@ [refit |-> f1.fit], [f2 EXCEPT !.refit = f2.fit] @@ [refit |-> f2.fit]>>)
+    \/ phase = "running" /\ Len(cur) <= 2 /\ \E m1, m2 \in Members : DoneMO(<<m1, m2>>)
 Spec == Init /\ [][Next]_svars
 =============================================================================
